@@ -1,6 +1,6 @@
 (* Properties/C15.v : Content stream framing round-trips and rejects malformed streams.
    Only statements, closed by lemmas of Proofs/Framing.v, each followed by Print Assumptions. *)
-From Shisui Require Import Base.Bytes Model.Framing Proofs.Framing.
+From Shisui Require Import Base.Bytes Model.Framing Proofs.Framing Model.Dispatch Proofs.Dispatch.
 
 (* splitting inverts joining, for any list of items shorter than 2^32 bytes (empty items and the empty list included) *)
 Theorem C15_roundtrip : forall l : list bytes,
@@ -65,6 +65,13 @@ Print Assumptions C15_utp_roundtrip.
 Theorem C15_total : forall data, decode_contents data <> Panic.
 Proof. exact decode_contents_no_panic. Qed.
 Print Assumptions C15_total.
+
+(* the consumer on the OFFER path (handleOfferedContents): something is enqueued only when the WHOLE stream decodes
+   and holds exactly one item per awaited key - a malformed tail or surplus items discard everything *)
+Theorem C15_offered_contents_whole_stream : forall nkeys payload cs,
+  handle_offered_contents nkeys payload = Ok (Some cs) -> length cs = nkeys /\ decode_contents payload = Ok cs.
+Proof. exact handle_offered_contents_count. Qed.
+Print Assumptions C15_offered_contents_whole_stream.
 
 (* premises are satisfiable by non-trivial values *)
 Example C15_nonvacuous :
